@@ -34,24 +34,7 @@ def run(chk, facts_dir, tier):
     ae = calls(hw, BSW + "append_event")
     ac = calls(hw, BSW + "append_commit")
     # R2.2
-    for fname in ("pending_indexes", "unflushed_events"):
-        sites = []
-        for i, j, s in field_stores(hw, fname, "WriterSet"):
-            sites.append((i, s["line"]))
-        for bi, t in hw.calls():
-            c = hw.callee_decl(t) or ""
-            if c.rsplit("::", 1)[-1] in ("extend", "push", "append", "insert") and t["args"]:
-                recv = ev.operand(t["args"][0], (bi, "T"))
-                if has_field(recv, fname, "WriterSet"):
-                    sites.append((bi, t["line"]))
-        if not sites:
-            chk.fail("R2.2", WS + "handle_write", "no-update:" + fname, "handle_write no longer updates %s" % fname, hw)
-        for bi, line in sites:
-            after = hw.reach_after([bi])
-            if any(x[0] in after for x in ae + ac):
-                chk.fail("R2.2", WS + "handle_write", "early-update:" + fname, "%s is updated before the transaction's last record is appended: a failing append leaves writer state changed" % fname, hw, line)
-            else:
-                chk.ok("R2.2", "%s updated after the last fallible append" % fname, hw.where(line))
+    late_bookkeeping(chk, prog, hw, ev, ae, ac, "R2.2")
     c16.check_sequence_cache(chk, prog, "R2.2")
     vb = prog.body(WS + "validate_event_versions")
     chk.analysed(vb.path)
@@ -151,3 +134,25 @@ def run(chk, facts_dir, tier):
     else:
         chk.fail("R2.5", vb.path, "key-mismatch-arms", "only %d of the four expectation arms reject a partition key mismatch" % len(mism), vb)
     return {}
+
+
+def late_bookkeeping(chk, prog, hw, ev, ae, ac, rule):
+    """pending_indexes / unflushed_events are only touched after the transaction's last fallible append (C02 R2.2, C16 R16.5)"""
+    for fname in ("pending_indexes", "unflushed_events"):
+        sites = []
+        for i, j, s in field_stores(hw, fname, "WriterSet"):
+            sites.append((i, s["line"]))
+        for bi, t in hw.calls():
+            c = hw.callee_decl(t) or ""
+            if c.rsplit("::", 1)[-1] in ("extend", "push", "append", "insert") and t["args"]:
+                recv = ev.operand(t["args"][0], (bi, "T"))
+                if has_field(recv, fname, "WriterSet"):
+                    sites.append((bi, t["line"]))
+        if not sites:
+            chk.fail(rule, WS + "handle_write", "no-update:" + fname, "handle_write no longer updates %s" % fname, hw)
+        for bi, line in sites:
+            after = hw.reach_after([bi])
+            if any(x[0] in after for x in ae + ac):
+                chk.fail(rule, WS + "handle_write", "early-update:" + fname, "%s is updated before the transaction's last record is appended: a failing append leaves writer state changed" % fname, hw, line)
+            else:
+                chk.ok(rule, "%s updated after the last fallible append" % fname, hw.where(line))
